@@ -23,6 +23,10 @@ type Gen struct {
 	Density float64
 	// NoSort leaves repeated message fields in generation order (default: sorted by the elements' name field).
 	NoSort bool
+	// LeafWKT: Timestamp and Duration fields are leaves like scalars, they do not count towards MaxDepth (default:
+	// they do, so a message at the depth limit never gets its times populated: a request wrapper around a resource
+	// with a period then never carries a complete period).
+	LeafWKT bool
 }
 
 func New(r *rand.Rand) *Gen {
@@ -62,7 +66,7 @@ func (g *Gen) fill(m protoreflect.Message, depth int) {
 			fd = od.Fields().Get(g.R.Intn(od.Fields().Len()))
 		}
 		isMsg := fd.Kind() == protoreflect.MessageKind || fd.Kind() == protoreflect.GroupKind
-		if isMsg && depth >= g.MaxDepth {
+		if isMsg && depth >= g.MaxDepth && !(g.LeafWKT && isLeafWKT(fd)) {
 			continue
 		}
 		switch {
@@ -110,6 +114,17 @@ func (g *Gen) fill(m protoreflect.Message, depth int) {
 			m.Set(fd, g.scalar(fd))
 		}
 	}
+}
+
+func isLeafWKT(fd protoreflect.FieldDescriptor) bool {
+	if fd.IsMap() || fd.Message() == nil {
+		return false
+	}
+	switch fd.Message().FullName() {
+	case "google.protobuf.Timestamp", "google.protobuf.Duration":
+		return true
+	}
+	return false
 }
 
 // sortByName sorts a repeated message field by the elements' string field "name" (if any): several
